@@ -17,7 +17,8 @@ import c04lib as L
 META = {
     "category": "proof",
     "text": "Lean theorems on the executable model: probability-array indices (literal_subcoder, dist/align/len coders) are in "
-            "bounds for lc+lp<=4; one LZMA symbol reads at most LZMA_IN_REQUIRED=20 bytes; probabilities stay in [31,2017]; VLI "
+            "bounds for lc+lp<=4; one LZMA symbol reads at most LZMA_IN_REQUIRED=20 bytes (on the 203 bit shapes and on the executable "
+            "symbol decoder itself); every seek request of the file-info decoder model lies inside the file; probabilities stay in [31,2017]; VLI "
             "decoding never exceeds 63 bits; Block Header size bounds; the Index record count is checked against the memory limit "
             "before anything is allocated; dictionary indices stay inside the allocation; lzma_code turns a second no-progress call "
             "into LZMA_BUF_ERROR and never lets an internal code escape; the x86 BCJ inner loop terminates. Tie: Gen/C04.lean "
